@@ -83,9 +83,10 @@ def clamp_tanh(x):
 
 
 def clamp_sigmoid(x):
-    if x <= -8:
+    # only clamp where the double precision result is saturated anyway (this also avoids the overflow of exp(-x))
+    if x <= -37:
         y = 0.0
-    elif x >= 8:
+    elif x >= 37:
         y = 1.0
     else:
         y = 1 / (1 + math.exp(-x))
